@@ -378,3 +378,34 @@ def dominating_discriminants(body, bb):
         if len(taken) == 1:
             out.append((src[0], src[1], taken[0]))
     return out
+
+
+def move_origins(body, local):
+    """Follow plain whole-local moves/copies backwards through *all* definitions of `local`.
+    Returns (aliases:set of locals, origins:list of (bb, idx|None, kind, payload)) with kind in
+      'param' (payload = local), 'proj' (payload = place read through a projection), 'call' (payload = terminator),
+      'rv' (payload = statement computing the value)"""
+    defs = body.defs()
+    aliases = set()
+    origins = []
+    todo = [local]
+    while todo:
+        l = todo.pop()
+        if l in aliases:
+            continue
+        aliases.add(l)
+        ds = defs.get(l, [])
+        if not ds and 1 <= l <= body.d['argc']:
+            origins.append((0, None, 'param', l))
+        for kind, dbb, idx, x in ds:
+            if kind == 'call':
+                origins.append((dbb, None, 'call', x))
+            elif x['rv']['k'] == 'use' and op_place(x['rv']['op']) is not None:
+                pl = op_place(x['rv']['op'])
+                if not pl['p']:
+                    todo.append(pl['l'])
+                else:
+                    origins.append((dbb, idx, 'proj', pl))
+            else:
+                origins.append((dbb, idx, 'rv', x))
+    return aliases, origins
